@@ -1,6 +1,6 @@
 (* C08 -- Blocks render independently, in order (partial: see MANIFEST level text). *)
 From Rimu Require Import Base Unicode Regex RegexAnalysis RegexParse Str Types Tables Guards State Inline Block
-  Frame FrameBlock FrameInst OptionsLemmas MiscLemmas MoreLemmas Plain TableFacts PlainDoc Lines RegexSem MatchLemmas MatchExact ExactTable Locality CodeBlock HeaderDoc ParaDoc Compose QuoteBlock.
+  Frame FrameBlock FrameInst OptionsLemmas MiscLemmas MoreLemmas Plain TableFacts PlainDoc Lines RegexSem MatchLemmas MatchExact ExactTable Locality CodeBlock HeaderDoc ParaDoc Compose QuoteBlock DivBlock.
 
 (* the block loop emits the rendering of the first block followed by the rendering of the rest,
    from the state and reader the first block left *)
@@ -231,3 +231,22 @@ Example C08_ex_quote :
   match doc_render 12 ($"""""" ++ [10] ++ $"hello *w* x" ++ [10] ++ $"""""") (document_init S0) with
   | Ok (html, _) => str_eqb html $"<blockquote><p>hello <em>w</em> x</p></blockquote>" | _ => false end = true.
 Proof. vm_compute. reflexivity. Qed.
+
+(* A DIVISION BLOCK WITHOUT CLASS IS OMITTED: .. / content / ..  renders to the nested render of the content alone (the div would
+   carry no attribute), then the rest of the reader; with a paragraph line inside, from the text: just the paragraph *)
+Theorem C08_division_block_then_rest : forall fuel doc n content rest s inner s2,
+  quiet_default s -> Forall nlfree content -> ~ In dfence content ->
+  doc (join [10] content) (div_open s) = Ok (inner, s2) -> dblocks_std (s_dblocks s2) ->
+  doc_loop (S fuel) doc (S n) (dfence :: content ++ dfence :: rest) s =
+  match doc_loop (S fuel) doc n rest (set_popts s2 expand_none) with
+  | Ok (r, s3) => Ok (inner ++ (match rest with [] => [] | _ => if nonempty inner then [10] else [] end) ++ r, s3)
+  | Raise e => Raise e
+  | Fuel => Fuel
+  end.
+Proof. exact div_block_then_rest. Qed.
+Print Assumptions C08_division_block_then_rest.
+
+Theorem C08_division_paragraph_document : forall n l R s, para_line (ienv_of s) l R -> quiet_default s -> l <> dfence ->
+  doc_render (S (S (S (S (S (S (S n))))))) (dfence ++ 10 :: l ++ 10 :: dfence) s = Ok ($"<p>" ++ R ++ $"</p>", div_open s).
+Proof. exact div_paragraph_document. Qed.
+Print Assumptions C08_division_paragraph_document.
